@@ -23,7 +23,7 @@ def iso(ms):
 
 class Bet:
     __slots__ = ("bet_id", "market_id", "sel", "hc", "side", "ot", "price", "size", "pers", "ref", "sref", "sm", "avp", "sr", "sc",
-                 "sl", "sv", "status", "placed", "liability", "dirty")
+                 "sl", "sv", "status", "placed", "liability", "dirty", "hist")
 
     def view(self):
         return {"bet_id": self.bet_id, "sm": self.sm, "sr": self.sr, "sc": self.sc, "sl": self.sl, "sv": self.sv, "status": self.status,
@@ -80,6 +80,7 @@ class Exchange:
         b.status = "EXECUTABLE"
         b.placed = self.pt
         b.dirty = True
+        b.hist = []  # (event, amount, remaining afterwards)
         self.bets[b.bet_id] = b
         return b
 
@@ -187,6 +188,7 @@ class Exchange:
                     if b.sr == 0:
                         b.status = "EXECUTION_COMPLETE"
                     b.dirty = True
+                    b.hist.append(("partial-cancel" if red else "cancel", c, b.sr))
                     rep.update(status="SUCCESS", sizeCancelled=c, cancelledDate=iso(self.pt))
                 elif oc.startswith("TIMEOUT"):
                     rep.update(status="TIMEOUT")
